@@ -328,12 +328,13 @@ Ltac same_some :=
 Ltac det_ih :=
   repeat match goal with
   | IH : forall o, sem ?sd ?it ?s ?f o -> ?x = o, H : sem ?sd ?it ?s ?f ?y |- _ =>
+    tryif constr_eq x y then fail else idtac;
     let E := fresh "E" in
     assert (E : x = y) by (apply IH; exact H); clear H;
-    first [ discriminate E | injection E; intros; subst; clear E | subst | clear E ]
+    first [ discriminate E | injection E; intros; subst; try clear E | subst ]
   end.
 
-Ltac det_fin := same_some; det_ih; same_some; try reflexivity; try discriminate; try (simpl in *; congruence).
+Ltac det_fin := do 4 (same_some; det_ih); same_some; try reflexivity; try discriminate; try (simpl in *; congruence).
 
 Theorem sem_det : forall sd it s f o1, sem sd it s f o1 -> forall o2, sem sd it s f o2 -> o1 = o2.
 Proof.
@@ -352,3 +353,103 @@ Proof.
 Qed.
 
 End Sem.
+
+(* ---------------------------------------------------------------------- *)
+(* consequences for [peg_run] *)
+
+Theorem peg_run_accept_sound : forall g act cs n,
+  peg_run g act cs = Some (Some n) ->
+  exists r0 rules rest f c,
+    snd g = r0 :: rules /\ f_last f = n /\
+    sem g (cfg_of g) act [] (IExp (GRef (rule_name r0))) cs fr0 (Ok rest f c).
+Proof.
+  intros g act cs n H. unfold peg_run in H. destruct (snd g) as [|r0 rules] eqn:Hr; [discriminate|].
+  destruct (interp g (cfg_of g) act (fuel_of cs) [] (IExp (GRef (rule_name r0))) cs fr0 tbl_empty)
+    as [[o tb]|] eqn:E; [|discriminate].
+  destruct (interp_sound g (cfg_of g) act _ _ _ _ _ _ _ _ (tbl_empty_ok g (cfg_of g) act) E) as [Hs _].
+  destruct o as [rest f c| |]; try discriminate. inversion H. subst.
+  exists r0, rules, rest, f, c. auto.
+Qed.
+
+(* a rejected text has no successful derivation at all (soundness + determinism) *)
+Theorem peg_run_reject_sound : forall g act cs r0 rules,
+  snd g = r0 :: rules -> peg_run g act cs = Some None ->
+  forall rest f c, ~ sem g (cfg_of g) act [] (IExp (GRef (rule_name r0))) cs fr0 (Ok rest f c).
+Proof.
+  intros g act cs r0 rules Hr H rest f c Hs. unfold peg_run in H. rewrite Hr in H.
+  destruct (interp g (cfg_of g) act (fuel_of cs) [] (IExp (GRef (rule_name r0))) cs fr0 tbl_empty)
+    as [[o tb]|] eqn:E; [|discriminate].
+  destruct (interp_sound g (cfg_of g) act _ _ _ _ _ _ _ _ (tbl_empty_ok g (cfg_of g) act) E) as [Hs' _].
+  pose proof (sem_det g (cfg_of g) act _ _ _ _ _ Hs _ Hs') as Eo. subst o. discriminate.
+Qed.
+
+(* ---------------------------------------------------------------------- *)
+(* Agreement of the PEG interpreter on the REGENERATED grammar with the hand-written parser.
+
+   FULL STATEMENT (not proved):
+     forall s : stmt, wf_stmt s = true ->
+       peg_parse (render (print_stmt s)) = parse_text (render (print_stmt s))
+   (hence = Some (stmt_erase s) by C06_stmt_roundtrip and the lexer round trip), and the same for
+   every admissible spelling of the printed tokens.
+   What is missing: an induction over ALL well-formed trees through the generic interpreter
+   (memo table, seed growing, fuel bound) specialised to the 64 rules of the grammar value; the
+   general facts it would rest on (soundness, determinism, fuel monotonicity) are proved above.
+
+   PROVED ([peg_agrees_partial]): the statement for every tree of the finite domain [peg_domain]:
+   SELECT <e> WHERE <e> for every parent-operator x child-form x operand-position combination of
+   depth 2 (the same matrix the correspondence harness enumerates), over all literal kinds,
+   by evaluating both parsers inside the kernel on the whole domain. *)
+From Verif Require Import Model.Parser Model.Printer Model.PegActions.
+From Verif Require Gen.Grammar.
+
+Definition dS (s : string) : str := str_of_string s.
+Definition d_leaves : list expr :=
+  [EColumn (dS "a"); EConst (LInt 1); EConst (LStr (dS "x y")); EConst LNull; EConst (LBool true);
+   EConst (LBool false); EConst (LDec 15 1); EConst (LDate 2020 1 2); EList [LInt 1; LNull; LStr (dS "q")];
+   EFuncStar (dS "count"); EPlace []; EPlace (dS "p")].
+Definition d_unary : list (expr -> expr) :=
+  [ENeg; ENot; EIsNull; EIsNotNull; (fun a => EAttr a (dS "b")); (fun a => ESubscript a (dS "k"));
+   EParen; EUPlus; (fun a => EFunc (dS "f") [a])].
+Definition d_binary : list (expr -> expr -> expr) :=
+  map EArith [Add; Sub; Mul; Div; Mod]
+  ++ map ECmp [Lt; Le; Gt; Ge; Eq; Ne; In; NotIn; Match; NotMatch]
+  ++ [(fun a b => EAnd [a; b]); (fun a b => EOr [a; b]); (fun a b => EBetween a b a);
+      (fun a b => EFunc (dS "g") [a; b])].
+Definition d_children : list expr :=
+  d_leaves ++ map (fun u => u (EColumn (dS "a"))) d_unary
+           ++ map (fun b => b (EColumn (dS "a")) (EConst (LInt 1))) d_binary.
+Definition d_exprs : list expr :=
+  d_children
+  ++ flat_map (fun u => map u d_children) d_unary
+  ++ flat_map (fun b => flat_map (fun c => [b c (EColumn (dS "z")); b (EConst (LInt 2)) c]) d_children) d_binary.
+Definition d_stmt (e : expr) : stmt :=
+  SSelect (ESelect false (Some [(e, None)]) None (Some e) None [] None None).
+Definition peg_domain : list stmt :=
+  filter (fun s => wf_stmt s && lex_ok (print_stmt s)) (map d_stmt d_exprs).
+Definition d_text (s : stmt) : str := render (print_stmt s).
+
+Lemma map_eq_pointwise {A B} (f h : A -> B) (l : list A) :
+  map f l = map h l -> forall x, List.In x l -> f x = h x.
+Proof.
+  induction l as [|a l IH]; simpl; intros E x Hin; [contradiction|].
+  inversion E. destruct Hin as [<-|Hin]; auto.
+Qed.
+
+Lemma peg_domain_size : List.length peg_domain = 1846%nat.
+Proof. vm_compute. reflexivity. Qed.
+
+Lemma peg_domain_peg : map (fun s => peg_parse (d_text s)) peg_domain = map (fun s => Some (stmt_erase s)) peg_domain.
+Proof. vm_compute. reflexivity. Qed.
+
+Lemma peg_domain_hand : map (fun s => parse_text (d_text s)) peg_domain = map (fun s => Some (stmt_erase s)) peg_domain.
+Proof. vm_compute. reflexivity. Qed.
+
+Theorem peg_agrees_partial : forall s, List.In s peg_domain ->
+  peg_parse (render (print_stmt s)) = parse_text (render (print_stmt s))
+  /\ peg_parse (render (print_stmt s)) = Some (stmt_erase s).
+Proof.
+  intros s Hin.
+  pose proof (map_eq_pointwise _ _ _ peg_domain_peg s Hin) as H1.
+  pose proof (map_eq_pointwise _ _ _ peg_domain_hand s Hin) as H2.
+  unfold d_text in *. simpl in *. split; congruence.
+Qed.
